@@ -102,6 +102,9 @@ def main():
             notes = open(os.path.join(mdir, "notes.txt")).read()
         if confirmed:
             d = os.path.join(V, "seeded", f"{pid}-{name}")
+            k = 2
+            while os.path.exists(d) and os.path.abspath(d) != os.path.abspath(mdir):   # never overwrite an earlier change
+                d = os.path.join(V, "seeded", f"{pid}-{name}-{k}"); k += 1
             os.makedirs(d, exist_ok=True)
             shutil.copy(patch, os.path.join(d, "patch.diff"))
             if os.path.exists(demo):
